@@ -10,6 +10,7 @@
 EXTENDS Match, Json, TLC
 
 CONSTANTS MaxRoutes,    \* routes per table
+          MaxGone,      \* routes that were added and deleted again (`route del`) before the lookup
           PatSel,       \* indices into PatU usable in this run
           PathSel,      \* indices into PathU usable in this run
           HostSel       \* indices into HostU asked in this run
@@ -106,10 +107,16 @@ MCCorePats  == {1, 2, 3, 4, 6, 8, 10, 13, 17, 18, 20}
 MCCorePaths == {1, 2, 4, 6}
 MCMiniPats  == {1, 2, 3, 4, 6, 13, 17}
 MCMiniPaths == {1, 2, 4, 6}
+MCTinyPats  == {1, 2, 3}
+MCTinyPaths == {1, 2, 3}
 
-VARIABLES tbl,   \* set of route indices
+\* The table a request is looked up in is what a HISTORY of route commands has left: the
+\* routes that were added and still have a target.  A route whose targets were all deleted
+\* again is not a route of the table (it can neither serve nor shadow anything).
+VARIABLES tbl,   \* set of route indices: the routes of the table
+          gone,  \* routes that were added and then deleted (history; they are not in the table)
           ph     \* "build" | "ask" | "done"
-vars == <<tbl, ph>>
+vars == <<tbl, gone, ph>>
 
 Table(t) == {RouteOf(i) : i \in t}
 
@@ -150,18 +157,23 @@ ExpectSni(t, h) ==
 
 CaseJson(hi, tls) ==
     LET t == Table(tbl) IN
-    [t |-> tbl, h |-> hi, tls |-> IF tls THEN 1 ELSE 0,
+    [t |-> tbl, d |-> gone, h |-> hi, tls |-> IF tls THEN 1 ELSE 0,
      w |-> Rows(tbl, hi, tls),
      sni |-> ExpectSni(t, HostU[hi])]
 
-Init == tbl = {} /\ ph = "build" /\ PrintT(ToJson(Universe))
-Grow(i) == /\ ph = "build" /\ Cardinality(tbl) < MaxRoutes /\ i \notin tbl
-           /\ tbl' = tbl \cup {i} /\ ph' = ph
-Seal == ph = "build" /\ tbl # {} /\ ph' = "ask" /\ tbl' = tbl
+Init == tbl = {} /\ gone = {} /\ ph = "build" /\ PrintT(ToJson(Universe))
+\* route add
+Grow(i) == /\ ph = "build" /\ Cardinality(tbl) < MaxRoutes /\ i \notin tbl \cup gone
+           /\ tbl' = tbl \cup {i} /\ ph' = ph /\ gone' = gone
+\* route del of everything route i has
+Retire(i) == /\ ph = "build" /\ i \in tbl /\ Cardinality(gone) < MaxGone
+             /\ tbl' = tbl \ {i} /\ gone' = gone \cup {i} /\ ph' = ph
+Seal == ph = "build" /\ tbl # {} /\ ph' = "ask" /\ tbl' = tbl /\ gone' = gone
 Ask(hi, tls) == /\ ph = "ask"
                 /\ PrintT(ToJson(CaseJson(hi, tls)))
-                /\ ph' = "done" /\ tbl' = tbl
+                /\ ph' = "done" /\ tbl' = tbl /\ gone' = gone
 Next == \/ \E i \in RouteIds : Grow(i)
+        \/ \E i \in RouteIds : Retire(i)
         \/ Seal
         \/ \E hi \in HostSel, tls \in BOOLEAN : Ask(hi, tls)
 Spec == Init /\ [][Next]_vars
@@ -170,13 +182,13 @@ Spec == Init /\ [][Next]_vars
 \* are printed by a single action
 AskAll == /\ ph = "ask"
           /\ \A hi \in HostSel, tls \in BOOLEAN : PrintT(ToJson(CaseJson(hi, tls)))
-          /\ ph' = "done" /\ tbl' = tbl
-SimNext == (\E i \in RouteIds : Grow(i)) \/ Seal \/ AskAll
+          /\ ph' = "done" /\ tbl' = tbl /\ gone' = gone
+SimNext == (\E i \in RouteIds : Grow(i)) \/ (\E i \in RouteIds : Retire(i)) \/ Seal \/ AskAll
 SimSpec == Init /\ [][SimNext]_vars
 
 \* the same enumeration without printing, for the well-definedness check
-QInit == tbl = {} /\ ph = "build"
-QNext == (\E i \in RouteIds : Grow(i)) \/ Seal
+QInit == tbl = {} /\ gone = {} /\ ph = "build"
+QNext == (\E i \in RouteIds : Grow(i)) \/ (\E i \in RouteIds : Retire(i)) \/ Seal
 QSpec == QInit /\ [][QNext]_vars
 
 \* Best is well defined: on every well-posed table of the universe, for every request,
